@@ -1,7 +1,7 @@
 /-
   Driver suite `engine`: one session history per line (key=value tokens, keys may repeat).
 
-    mode=long|pers|lp out=N cache=N flags=N root=hex lang=hex sep=hex roe=0|1
+    mode=long|pers|lp|ws out=N cache=N flags=N root=hex lang=hex sep=hex roe=0|1
     node=<sym>:<code>            bytecode of a node
     tpl=<lang|->:<sym>:<text>    template (translation when lang given)
     label=<lang|->:<sym>:<text>  menu label; unlisted labels resolve to the symbol itself
@@ -199,10 +199,11 @@ def reqOutStr (r : ReqOut) : String :=
 def engCaseRun (c : EngCase) : String :=
   let env := envOf c
   let cfg := c.cfg
-  if c.mode = "long" || c.mode = "lp" then
+  if c.mode = "long" || c.mode = "lp" || c.mode = "ws" then
     -- a long-lived engine is given its state and cache explicitly (WithState / WithMemory); in mode lp it is given a
     -- persister over an empty store instead, and takes its state from there when it is first prepared
-    let e0 : Eng := if c.mode = "long"
+    -- mode ws: the client keeps state and cache and builds a new engine around them for every request
+    let e0 : Eng := if c.mode = "long" || c.mode = "ws"
       then { vm := newVmSt cfg (St.new cfg.flagCount) (freshCache cfg) {}, explicitState := true }
       else restore env cfg none {}
     let (_, outs, _, _) := c.inputs.foldl (fun (acc : Eng × List String × Bool × Bool) input =>
@@ -213,6 +214,7 @@ def engCaseRun (c : EngCase) : String :=
       -- (the reload is part of `prepare`, which a request refused for its format does not reach)
       let fmtOk := input.isEmpty || matchesInput input
       let e := if c.mode = "lp" && !e.initd && e.prepared && fmtOk then restore env cfg none e.vm.ghost else e
+      let e : Eng := if c.mode = "ws" then { vm := newVmSt cfg e.vm.st e.vm.ca e.vm.ghost, explicitState := true } else e
       let nc := e.vm.ghost.calls.length
       let nl := e.vm.ghost.lookups.length
       let nm := e.vm.ghost.moves.length
